@@ -14,6 +14,7 @@ from __future__ import annotations
 import io
 import os
 import random
+import warnings
 import shutil
 import zipfile
 
@@ -110,6 +111,10 @@ def check_stream(b, rec, origin, case, rechunk=0, rng=None):
         p = b"".join(c[1] for c in chunks)
         segs = iwa.segments(p)
     except Exception as e:  # noqa: BLE001 - not well-formed by the reference reading: outside the property
+        if origin.startswith("generated"):
+            # a file the library itself has just written: "every encoded file obeys the container rules"
+            rec.violation("encoded_not_wellformed", {"exc": type(e).__name__, "stage": case.get("stage", "first-save")}, {"origin": origin, "msg": str(e)[:200]}, case=case)
+            return
         rec.count("not_wellformed_by_reference")
         rec.note(f"{origin}: reference cannot decode ({type(e).__name__}: {e})")
         return
@@ -267,8 +272,37 @@ def run_generated(spec, rec):
                 check_stream(b, rec, f"generated:{rseed}!{name}", {"part": "generated", "rseed": rseed, "size": size, "member": name},
                              rechunk=1 if r2.random() < .1 else 0, rng=r2)
         os.remove(path)
+        # the same open document edited (objects grow and shrink) and encoded again: the archives of the second file obey the same rules
+        try:
+            second_edit(doc, rseed)
+            docs.save(doc, path)
+        except Exception as e:  # noqa: BLE001
+            rec.violation("second_save_raised", {"exc": type(e).__name__}, {"msg": str(e)[:200], "rseed": rseed}, case={"part": "generated", "rseed": rseed, "size": size, "stage": "second-save", "member": ""})
+            continue
+        for name, b in members(path):
+            if name.endswith(".iwa"):
+                rec.count("generated_doc_archives_second_save")
+                check_stream(b, rec, f"generated:{rseed}!{name}", {"part": "generated", "rseed": rseed, "size": size, "member": name, "stage": "second-save"}, rechunk=0, rng=r2)
+        os.remove(path)
         if i == 0:
             rec.sample({"generated_recipe_seed": rseed, "size": size, "ops": len(recipe["ops"])})
+
+
+def second_edit(doc, rseed):
+    """Edits between two saves of one Document: strings that lengthen and shorten string lists and tiles, a new row, a rename."""
+    r3 = random.Random(rseed ^ 0x5EC0)
+    with warnings.catch_warnings():
+        warnings.simplefilter("ignore")
+        for sh in doc.sheets:
+            for t in sh.tables:
+                for _ in range(r3.randint(1, 6)):
+                    r, c = r3.randrange(t.num_rows), r3.randrange(t.num_cols)
+                    try:
+                        t.write(r, c, r3.choice(["x" * r3.randint(1, 400), "", 3.25, True, "second " + str(r3.random())]))
+                    except Exception:  # noqa: BLE001 - merged cells etc.: not what is judged here
+                        pass
+                if r3.random() < .3:
+                    t.add_row()
 
 
 def synth(total, nseg, rng, multi=False, unknown=False, entropy=False, header_only_ok=True):
@@ -667,6 +701,13 @@ def replay(case, rec):
         path = os.path.join(docs.scratch_dir(), "replay.numbers")
         doc, _ = docs.build(recipe)
         docs.save(doc, path)
+        if case.get("stage") == "second-save":
+            try:
+                second_edit(doc, case["rseed"])
+                docs.save(doc, path)
+            except Exception as e:  # noqa: BLE001
+                rec.violation("second_save_raised", {"exc": type(e).__name__}, {"msg": str(e)[:200], "rseed": case["rseed"]}, case=case)
+                return
         for name, b in members(path):
             if name == case["member"]:
                 if "cuts" in case:
